@@ -8,7 +8,8 @@
    holds, whether the core was submitted to it, and the argument.  Programs, callback bodies (arbitrary total functions),
    chain lengths, nesting depth of returned chains, policies and values are universally quantified.  With the policy
    "alive executors accept, MakeInline(StopTag) refuses" and no On-segments drun is Pipe.core_run (c05_model_is_pipe), so
-   every statement also holds of core_run; the most used ones are restated for it (`_pipe`).
+   every statement also holds of core_run; the most used ones are restated for it (`_pipe`).  [dlazy pol ce s e p] is the lazy
+   program p started with Task::ToFuture(e) / Detach(e) / Cancel() (the `c05_lazy_*` statements).
 
    Executors.  Inline and Manual are the transition systems of model/ExecSimple.v; Strand is model/Strand.v (C07),
    FairThreadPool model/Pool.v (C08); [exec_contract] is IExecutor's contract read for a whole history. *)
@@ -279,6 +280,104 @@ Theorem c05_chain_completes_with_reading : forall p pol ce s, wt p ->
 Proof. exact dtyped_final. Qed.
 Print Assumptions c05_chain_completes_with_reading.
 
+(* ============================================================================================ a Task started on an executor *)
+(* Task::ToFuture(e) / Detach(e) / Cancel() (= Detach(MakeInline(StopTag))): detail::Start(core, e) walks to the FIRST core of the
+   lazy chain, overwrites its executor with e and submits it to e (src/lazy/task_impl.cpp:6-10).  [dlazy pol ce s e p] is that
+   start of the lazy program p (a Task source followed by Then steps); ToFuture() / Detach() are [drun] of the same program. *)
+
+(* the first core is handed to e — not to the executor it was built with (the e1 of Schedule(e1, f)) — as one job, Called iff e
+   accepts; the core holds e *)
+Theorem c05_lazy_head_runs_on_start_executor : forall pol ce s e p o s',
+  is_head p = true -> (forall id, ce id = []) -> dlazy pol ce s e p = Some (o, s') ->
+  o_exec o = e /\
+  exists js, s' = s ++ Job (head_job_id p) e (d_cnt s e) (if accepts pol s e then FCall else FDrop) :: js.
+Proof. exact lazy_head_on_e. Qed.
+Print Assumptions c05_lazy_head_runs_on_start_executor.
+
+(* every later step contributes what the same step contributes in an eager pipeline: one job at the executor its core holds
+   (named, or inherited from the predecessor), at most one invocation carrying it *)
+Theorem c05_lazy_step : forall pol ce s e q id par a rt body oq s0 o s',
+  dlazy pol ce s e q = Some (oq, s0) -> dlazy pol ce s e (PThen q id par a rt body) = Some (o, s') ->
+  o_exec o = exec_of a oq /\
+  contrib pol ce (step_st pol s0 a id (exec_of a oq)) (o_evs oq) (exec_of a oq) id (is_call a) body o s'.
+Proof. exact lazy_step_contrib. Qed.
+Print Assumptions c05_lazy_step.
+
+(* Then(e1, f): inside e1 and nowhere else, whatever executor the Task is started on *)
+Theorem c05_lazy_placement : forall pol ce s e q id par e1 rt body oq s0 o s',
+  dlazy pol ce s e q = Some (oq, s0) -> dlazy pol ce s e (PThen q id par (AOn e1) rt body) = Some (o, s') ->
+  o_exec o = e1 /\
+  contrib pol ce (s0 ++ [Job id e1 (d_cnt s0 e1) (if pol e1 (d_cnt s0 e1) then FCall else FDrop)]) (o_evs oq) e1 id true body o s'.
+Proof. exact lazy_placement_on. Qed.
+Print Assumptions c05_lazy_placement.
+
+(* executor-less steps inherit e from the head down to the first step that names its own: through any number of
+   ThenInline(f) / Then(f) steps after the head the core holds e *)
+Theorem c05_lazy_inherits_start_executor : forall pol ce e steps s h o s',
+  is_head h = true -> (forall id, ce id = []) -> Forall unnamed steps ->
+  dlazy pol ce s e (chain h steps) = Some (o, s') -> o_exec o = e.
+Proof. exact lazy_inherit_e. Qed.
+Print Assumptions c05_lazy_inherits_start_executor.
+
+(* read off the program text: [lnamed e p] = the executor of the last Then(e1, f) on the spine, e if there is none *)
+Theorem c05_lazy_named : forall pol ce s e p o s',
+  (forall id, ce id = []) -> dlazy pol ce s e p = Some (o, s') -> o_exec o = lnamed e p.
+Proof. exact lazy_named. Qed.
+Print Assumptions c05_lazy_named.
+
+Theorem c05_lazy_inherit_named_step : forall pol s e q id par rt body o s',
+  dlazy pol no_on s e (PThen q id par AInherit rt body) = Some (o, s') ->
+  exists oq s0, dlazy pol no_on s e q = Some (oq, s0) /\ o_exec o = lnamed e q /\
+    contrib pol no_on (s0 ++ [Job id (lnamed e q) (d_cnt s0 (lnamed e q))
+                                  (if pol (lnamed e q) (d_cnt s0 (lnamed e q)) then FCall else FDrop)])
+            (o_evs oq) (lnamed e q) id true body o s'.
+Proof. exact lazy_inherit_named. Qed.
+Print Assumptions c05_lazy_inherit_named_step.
+
+(* a refusing start executor (Cancel()): the head completes with StopError and invokes nothing (a Schedule function taking
+   Result / E is invoked with StopError); every step that inherits it is Dropped, sees StopError, value callbacks are skipped; the
+   refusal is inherited down the chain *)
+Theorem c05_lazy_head_refused : forall pol ce s e p o s',
+  is_head p = true -> accepts pol s e = false -> dlazy pol ce s e p = Some (o, s') ->
+  match p with
+  | PRun _ _ id par _ _ =>
+      match invoked par (Err EStop) with
+      | None => o_res o = Err EStop /\ o_evs o = []
+      | Some i => exists rest, o_evs o = Ev id e true i :: rest
+      end
+  | _ => o_res o = Err EStop /\ o_evs o = []
+  end.
+Proof. exact lazy_head_refused. Qed.
+Print Assumptions c05_lazy_head_refused.
+
+Theorem c05_lazy_stopped_target : forall pol ce s e q id par a rt body oq s0 o s',
+  dlazy pol ce s e q = Some (oq, s0) -> dlazy pol ce s e (PThen q id par a rt body) = Some (o, s') ->
+  is_call a = true -> accepts pol s0 (exec_of a oq) = false ->
+  let ex := exec_of a oq in
+  let s1 := s0 ++ [Job id ex (d_cnt s0 ex) FDrop] in
+  match invoked par (Err EStop) with
+  | None => o_res o = Err EStop /\ o_evs o = o_evs oq /\ s' = s1
+  | Some i => (i = IRes (Err EStop) \/ i = IErr EStop) /\
+              exists rest js, o_evs o = o_evs oq ++ Ev id ex true i :: rest /\ s' = s1 ++ js
+  end.
+Proof. exact lazy_refused_step. Qed.
+Print Assumptions c05_lazy_stopped_target.
+
+Theorem c05_lazy_refusal_inherited : forall pol ce s e q id par a rt body oq s0 o1 s1,
+  dlazy pol ce s e q = Some (oq, s0) -> dlazy pol ce s e (PThen q id par a rt body) = Some (o1, s1) ->
+  (forall m, d_cnt s0 (exec_of a oq) <= m -> pol (exec_of a oq) m = false) ->
+  o_exec o1 = exec_of a oq /\ accepts pol s1 (exec_of AInherit o1) = false /\
+  (forall m, d_cnt s1 (exec_of AInherit o1) <= m -> pol (exec_of AInherit o1) m = false).
+Proof. exact lazy_refusal_inherited. Qed.
+Print Assumptions c05_lazy_refusal_inherited.
+
+(* for Schedule / LazyContract heads the start on e is exactly the pipeline whose head was built on e, started the default way:
+   every statement above about drun (c05_pipeline_jobs, c05_final_is_sequential_reading, c05_chain_still_completes, ...) applies *)
+Theorem c05_lazy_start_is_rebuilt_head : forall pol ce e p s,
+  sched_head p = true -> dlazy pol ce s e p = drun pol ce s (rehead e p).
+Proof. exact lazy_is_rehead. Qed.
+Print Assumptions c05_lazy_start_is_rebuilt_head.
+
 (* ============================================================================================ the link to C02's model *)
 
 Theorem c05_model_is_pipe : forall p s, option_map fst (drun static_pol no_on s p) = core_run p.
@@ -320,6 +419,22 @@ Example c05_witness_coroutine_dropped :
   = [1; 1; 1; 0; 100; 11; 3;
      1; 0; 0; 4; 1; 0;   11; 10; 1; 4; 1; 0;   2; 11; 1; 0; 2; -1;
      3;  11; 10; 0; 1;  12; 11; 0; 0;  2; 11; 1; 0].
+Proof. vm_compute. reflexivity. Qed.
+
+(* Schedule(m0, f1).Then(f2).Then(f3).ToFuture(m1), m1 refusing from its 2nd Submit: f1 runs inside m1 (not m0, which sees nothing),
+   f2 and f3 inherit m1 and are Dropped *)
+Example c05_witness_lazy_start :
+  obs_c05s (Some (XManual 1)) (Some (1%nat, 2%nat)) []
+    (PThen (PThen (PRun WT (XManual 0) 1 PNone TInt (hb (BRetI 2))) 2 PResult AInherit TInt (hb (BRetI 1))) 3 PResult AInherit TInt (hb (BRetI 1)))
+  = [1; 1; 1; 0; 100; 11; 3;  1; 11; 1; 4; 1; 0;  2; 11; 1; 0; 2; -1;  3; 11; 1; 0; 2; -1;
+     3;  1; 11; 0; 1;  2; 11; 1; 0;  3; 11; 2; 0].
+Proof. vm_compute. reflexivity. Qed.
+
+(* MakeTask(1).Then(f2).Then(m0, f3).ToFuture(m2): the ReadyCore is m2's job 0, f2 inherits m2, f3 stays on m0 *)
+Example c05_witness_lazy_ready_head :
+  obs_c05s (Some (XManual 2)) None []
+    (PThen (PThen (PReady WT TInt (Val (VInt 1))) 2 PResult AInherit TInt (hb (BRetI 1))) 3 PResult (AOn (XManual 0)) TInt (hb (BRetI 1)))
+  = [1; 1; 1; 0; 3; 10; 2;  2; 12; 1; 0; 0; 1;  3; 10; 1; 0; 0; 2;  3;  0; 12; 0; 1;  2; 12; 1; 1;  3; 10; 0; 1].
 Proof. vm_compute. reflexivity. Qed.
 
 (* the executors: a Manual run with a re-entrant Submit, and the stopped Inline *)
